@@ -31,6 +31,11 @@ type Case struct {
 	Args    string `json:"args"`     // ((name lit)…)
 	Raw     string `json:"raw"`      // ((name json)…)
 	Label   string `json:"label,omitempty"`
+	// polymorphic site only: the argument definitions of the two implementing object types (ArgDefs
+	// are the interface's) and how the field node reaches them
+	ImplA string `json:"impl_a_arg_defs,omitempty"`
+	ImplB string `json:"impl_b_arg_defs,omitempty"`
+	Via   string `json:"via,omitempty"` // interface-list | union-fragment
 	// derived from the above, written for the reader of a replay file
 	Query     string `json:"query,omitempty"`
 	Variables string `json:"variables,omitempty"`
